@@ -154,7 +154,7 @@ def run(tier: str, seed: int) -> int:
             vsel = sorted((c for c in g.cases.values() if len(c.decl.variants) <= 300),
                           key=lambda c: -len(c.decl.variants))
             vreps, vaborts = g.run(["C02"], "miri-thorough" if tier == "quick" else "quick", mode="valgrind",
-                                   only=[c.id for c in vsel], timeout=7200,
+                                   only=[c.id for c in vsel], timeout=1200 if tier == "quick" else 7200,
                                    sets=None if tier == "quick" else {"exhaustive_bits": 8, "rand_hist": 40, "pairs_all_n": 16, "pairs_sample": 100})
         phase["release_build_and_valgrind_s"] = round(time.time() - t1, 1)
         sites = {"native": {}, "miri": {}, "valgrind": {}}
